@@ -9,8 +9,16 @@ import (
 )
 
 func (e *kvElection) watchLoop(ctx context.Context) {
-	watcher, err := e.kv.Watch(e.key)
-	if err != nil {
+	// A failed Watch call must not end the loop: this loop (with its periodic check) is the only
+	// thing that lets a follower notice a vacancy. Retry until the watcher exists, and run the
+	// periodic check in the meantime.
+	var watcher Watcher
+	for {
+		w, err := e.kv.Watch(e.key)
+		if err == nil {
+			watcher = w
+			break
+		}
 		log := e.getLogger()
 		log.Error("watch_failed",
 			append(e.logWithContext(ctx),
@@ -18,7 +26,17 @@ func (e *kvElection) watchLoop(ctx context.Context) {
 				zap.String("key", e.key),
 			)...,
 		)
-		return
+		select {
+		case <-ctx.Done():
+			return
+		case <-time.After(500 * time.Millisecond):
+		}
+		if ctx.Err() != nil {
+			return
+		}
+		if !e.IsLeader() {
+			e.checkKeyAndReelect(ctx)
+		}
 	}
 	defer watcher.Stop()
 
